@@ -176,6 +176,9 @@ def residue_info(name):
             free.append((pos, "O"))
         elif a.GetSymbol() == "N" and a.GetDegree() == 1 and a.GetTotalNumHs() == 2:
             free.append((pos, "N"))
+    # a residue can be a child (and be declared a / b) only through a *free* anomeric hydroxyl
+    if len(an) == 1 and (an[0], "O") not in free:
+        an = []
     return {"ok": True, "smiles": smi, "cyclic": True, "anomeric": an[0] if len(an) == 1 else None,
             "free": free, "ncarbon": len(num), "rings": ring_count(m), "numbering_agrees": code_numbering_agrees(name)}
 
